@@ -42,7 +42,10 @@ fn inject(r: &mut crate::rng::Rng, prog: &str) -> (String, Option<&'static str>)
             (format!("{} {}{}", prog, open, trail), Some("<end-of-input>"))
         }
         1 => { // unknown word somewhere
-            let i = r.below(toks.len() + 1);
+            // (not in the place of a NAME: behind `:` `var` `local` `!` … the inserted text would be what gets defined or
+            // stored to, not a use of an unknown word — a false alarm of the thorough run, seed 1)
+            let mut i = r.below(toks.len() + 1);
+            while i > 0 && matches!(toks[i - 1], ":" | "var" | "local" | "const" | "late" | "!" | "defined" | "see" | "enum" | "include" | "require") { i -= 1; }
             let mut t: Vec<String> = toks.iter().map(|x| x.to_string()).collect();
             t.insert(i, "nosuchword".into());
             (t.join(" "), Some("nosuchword"))
@@ -295,5 +298,104 @@ pub fn run(ctx: &mut Ctx) {
         let r2 = crate::guarded(|| xs.run());
         let loc2 = xs.last_err_location().map(|l| (l.line, l.token.to_string()));
         ctx.check(matches!(r2, Some(Err(_))) && loc2 == Some((1, tok2.to_string())), || case.clone(), || format!("second run fails at `{}` on line 1", tok2), || format!("{:?} at {:?}", r2, loc2));
+    }
+    // tokens that span several lines (a string or a bit-string literal with line breaks inside, a comment that never
+    // ends): they are where they START — line, column and quoted line are those of their first character
+    for round in 0..(ctx.n / 40).max(36) {
+        let nl = *ctx.rng.pick(&["\n", "\r\n", "\r"]);
+        // (rounds 3..5 fail at run time: the stack limit 2 refuses the literal, the two values before it fill the stack)
+        let at_run_time = round % 6 >= 3;
+        let pre = format!("{}1 2{}{}", prefix(&mut ctx.rng).replace("\"päd\" drop", "\\( päd \\)"), if at_run_time { "" } else { " +" }, nl);
+        let indent = if at_run_time { *ctx.rng.pick(&["  ", "\t", "", " \\( é \\) "]) } else { *ctx.rng.pick(&["  ", "\t", "", "\"é\" drop "]) };
+        let (tok, tail, limit): (String, String, Option<usize>) = match round % 6 {
+            0 => (format!("\"abc{}def{}ghi 3 4{}", nl, nl, nl), String::new(), None),
+            1 => (format!("\"abc{}def\\q\"", nl), format!(" 3 4{}5 6{}", nl, nl), None),
+            2 => (format!("\\( a comment{}that never ends{}", nl, nl), String::new(), None),
+            3 => (format!("| ff{} 00 |", nl), format!(" 4{}", nl), Some(2)),
+            4 => (format!("\"two{}lines\"", nl), format!(" 4{}", nl), Some(2)),
+            _ => (format!("| 0f{}{} f0{} |", nl, nl, nl), " drop".to_string(), Some(2)),
+        };
+        let text = format!("{}{}{}{}", pre, indent, tok, tail);
+        let start = pre.len() + indent.len();
+        let mut xs = Xstate::boot().unwrap();
+        xs.intercept_stdout(true);
+        let _ = xs.eval("0 drop");
+        if limit.is_some() { xs.set_stack_limit(limit).unwrap(); }
+        let r = crate::guarded(|| xs.eval(&text));
+        let case = format!("C17 `{}` (a token of several lines starting at byte {})", text.escape_debug(), start);
+        let (l, c, whole) = independent_loc(&text, start);
+        let got = xs.last_err_location().map(|loc| (loc.token.range().start, loc.line, loc.col, loc.whole_line.to_string()));
+        ctx.check(matches!(r, Some(Err(_))) && got == Some((start, l, c, whole.clone())), || case.clone(), || format!("an error at byte {} line {} col {} quoting {:?}", start, l, c, whole), || format!("{:?} at {:?}", r.map(|x| x.is_ok()), got));
+        ctx.tag("kind:token-of-several-lines");
+    }
+    // a program that failed is often given up by its host (`abort_run`, what the REPL does after a failed line) BEFORE
+    // the host asks where it failed: the failure is still the last failure, with its location
+    for _ in 0..(ctx.n / 40).max(24) {
+        let mut xs = Xstate::boot().unwrap();
+        xs.intercept_stdout(true);
+        let f = *ctx.rng.pick(FAILS);
+        let text = match ctx.rng.below(4) {
+            0 => format!(": f {} ;\n   f", f.0),
+            1 => format!("{}3 0 do {} loop", prefix(&mut ctx.rng), f.0),
+            2 => format!("1 nosuchword"),
+            _ => format!("{}\n{}", prefix(&mut ctx.rng), f.0),
+        };
+        let r = match crate::guarded(|| xs.compile(&text)) { Some(Ok(())) => crate::guarded(|| xs.run()), other => other };
+        let view = |xs: &Xstate| (xs.last_err_location().map(|l| (l.filename.to_string(), l.line, l.col, l.token.to_string(), l.whole_line.to_string())), xs.pretty_error());
+        let before = view(&xs);
+        xs.abort_run();
+        let after = view(&xs);
+        ctx.check(matches!(r, Some(Err(_))) && before.0.is_some() && before == after, || format!("C17 compile + run of `{}`, then abort_run", text.escape_debug()), || format!("the failure and its location, as before abort_run: {:?}", before), || format!("{:?}", after));
+        ctx.tag("kind:abort-run-keeps-the-location");
+    }
+    // the same file loaded again (the edit / reload cycle): words compiled against the first load still run the first
+    // load's code, and a failure in it is located in that file
+    for round in 0..(ctx.n / 100).max(8) {
+        let dir = crate::lib_files(&ctx.scratch);
+        let f = format!("{}/reload{}.xeh", dir, round);
+        std::fs::write(&f, "\\ a small library\n: w   0 get ;\n").unwrap();
+        let mut xs = Xstate::boot().unwrap();
+        xs.intercept_stdout(true);
+        let r0 = match round % 3 {
+            0 => crate::guarded(|| xs.eval(&format!("include \"{}\"\n: caller w ;\ninclude \"{}\"\n", f, f))),
+            1 => crate::guarded(|| { xs.eval_file(Xstr::from(f.as_str()))?; xs.eval(": caller w ;")?; xs.eval_file(Xstr::from(f.as_str())) }),
+            _ => crate::guarded(|| { xs.eval_file(Xstr::from(f.as_str()))?; xs.eval(": caller w ;")?; std::fs::write(&f, "\\ a small library, edited\n\n: w 1 get ;\n: w2 then").unwrap(); let _ = xs.eval_file(Xstr::from(f.as_str())); OK }),
+        };
+        for probe in ["[ ] caller", "[ ] w"] {
+            let r = crate::guarded(|| xs.eval(probe));
+            let loc = xs.last_err_location().map(|l| (l.filename.to_string(), l.line, l.col, l.token.to_string(), l.whole_line.to_string()));
+            let want = Some((f.clone(), 1usize, 8usize, "get".to_string(), ": w   0 get ;".to_string()));
+            // (after the edit `w` itself is the rejected file's: it never came to be, the first one is still current)
+            ctx.check(matches!(r0, Some(Ok(()))) && matches!(r, Some(Err(_))) && loc == want, || format!("C17 {} loaded, `: caller w ;`, the file loaded again ({}), then `{}`", f, ["include twice in one source", "eval_file twice", "edited into a file that is rejected"][round % 3], probe),
+                || format!("an error at {:?}", want), || format!("{:?} at {:?}", r.map(|x| x.is_ok()), loc));
+        }
+        ctx.tag("kind:file-loaded-again");
+    }
+    // words the host defines (`defwordself`: a stub of a few instructions that no source text stands for): when such a
+    // word fails, the word that failed is its use in the source that called it — not whatever token an earlier,
+    // unrelated source happened to end with (repair)
+    for round in 0..(ctx.n / 100).max(8) {
+        let mut xs = Xstate::boot().unwrap();
+        xs.intercept_stdout(true);
+        let earlier = *ctx.rng.pick(&["1 2 +", "", "\"x\" drop", ": earlier 1 ; earlier drop"]);
+        let _ = xs.eval(earlier);
+        xs.defwordself("hostboom", |xs| { xs.pop_data()?; xs.pop_data()?.to_xstr()?; OK }, Cell::from(1)).unwrap();
+        let pre = prefix(&mut ctx.rng);
+        let (text, start) = match round % 3 {
+            0 => (format!("{}   7 hostboom", pre), pre.len() + 5),
+            1 => (format!("{}: hw 7 hostboom ; 2 0 do hw loop", pre), pre.len() + 7),
+            _ => (format!("{}true if 1 0 do 7 hostboom loop then", pre), pre.len() + 17),
+        };
+        let nsrc = xs.verif_dump().sources;
+        let r = crate::guarded(|| xs.eval(&text));
+        let loc = xs.last_err_location().map(|l| (l.filename.to_string(), l.token.range().start, l.token.to_string()));
+        let want = Some((format!("<buffer#{}>", nsrc), start, "hostboom".to_string()));
+        ctx.check(matches!(r, Some(Err(_))) && loc == want, || format!("C17 `{}` evaluated first, a failing host word defined with defwordself, then `{}`", earlier, text.escape_debug()),
+            || format!("an error at {:?}", want), || format!("{:?} at {:?}", r.map(|x| x.is_ok()), loc));
+        if let Some(l) = xs.last_err_location() {
+            let (ln, c, whole) = independent_loc(&text, l.token.range().start.min(text.len()));
+            ctx.check(l.token.parent().as_str() != text || (l.line == ln && l.col == c && l.whole_line.as_str() == whole), || format!("C17 `{}` (host word)", text.escape_debug()), || format!("line {} col {} whole {:?}", ln, c, whole), || format!("line {} col {} whole {:?}", l.line, l.col, l.whole_line.as_str()));
+        }
+        ctx.tag("kind:host-defined-word-fails");
     }
 }
